@@ -297,6 +297,11 @@ impl<'tcx> Cx<'tcx> {
             L::Int(n, _) => J::Obj(vec![("t", s("int")), ("v", J::Num(n.get() as i128))]),
             L::Bool(b) => J::Obj(vec![("t", s("bool")), ("v", J::Bool(*b))]),
             L::Char(c) => J::Obj(vec![("t", s("char")), ("v", s(c.to_string()))]),
+            L::ByteStr(bytes, _) => {
+                // format_args! templates are lowered to byte strings: keep the printable text
+                let b = bytes.as_byte_str();
+                J::Obj(vec![("t", s("bytestr")), ("v", s(String::from_utf8_lossy(b).to_string()))])
+            }
             other => J::Obj(vec![("t", s("other")), ("v", s(format!("{:?}", other)))]),
         }
     }
